@@ -10,11 +10,17 @@ import coqlit as L
 ID = "C08"
 COQ_PROPERTY_FILE = "Properties/C08.v"
 COQ_DEPS = ["Common/ListX.v", "Common/ObsHash.v", "Generated/Tables.v", "Model/LegacyGrid.v", "Proofs/LegacyGridProofs.v",
-            "Proofs/LegacyGridSim.v", "Proofs/LegacyGridRefine.v"]
+            "Proofs/LegacyGridSim.v", "Proofs/LegacyGridRefine.v", "Proofs/LegacyGridBridge.v"]
 COQ_IMPORTS = "From Mesa Require Import Model.LegacyGrid."
 COQ_CASE_TYPE = "case"
 COQ_RUN = "run_case"
-TABLE_CONSTRUCTS = ["mask_single_place", "mask_single_remove", "mask_multi_place", "mask_multi_remove"]
+TABLE_CONSTRUCTS = ["mask_single_place", "mask_single_remove", "mask_multi_place", "mask_multi_remove",
+                    # code-level T1 (harness/tables/legacy_space_code.py; gen_out_of_bounds comes from legacy_nbhd_code.py)
+                    "grid_out_of_bounds_code", "grid_torus_adj_code", "grid_distance_squared_code", "grid_is_cell_empty_code",
+                    "grid_move_to_empty_branch_code", "grid_move_to_empty_skeleton", "grid_closest_code",
+                    "grid_move_one_of_skeleton", "grid_swap_pos_skeleton",
+                    "body_single_place_code", "body_single_remove_code", "body_multi_place_code", "body_multi_remove_code",
+                    "body_grid_move_code", "body_single_move_code"]
 ENUM_ALWAYS = False
 RULE = ("histories = one legacy grid (class in Single/Multi/HexSingle/HexMulti, w,h in 1..5 (a few 6x6 for the rejection-"
         "sampling branch of move_to_empty), torus, with/without a property layer, 1..7 agents) + 6 stored corpus histories, "
